@@ -541,6 +541,13 @@ func Aborting() bool { x := X; return x != nil && x.aborting }
 //go:norace
 func Go(f func()) { GoNamed("", false, f) }
 
+// GoLib is what a go statement of the library under test becomes: a background thread. Only the threads
+// the harness starts are callers; the end of an execution with a library goroutine parked (an idle
+// cleanup or owner goroutine) is a normal end, while a caller that can never continue is a deadlock.
+//
+//go:norace
+func GoLib(f func()) { GoNamed("lib", true, f) }
+
 //go:norace
 func GoNamed(name string, daemon bool, f func()) {
 	x := X
